@@ -130,6 +130,12 @@ class JobContext(object):
             q = And(Not(t), *[Not(kt) for _, kt in kn])
             items.append([label, t, kn, q])
         t0 = time.time()
+        if os.environ.get("PSX_NOBATCH"):
+            for it in items:
+                tt = time.time()
+                rr = self.check_model(it[3])[0]
+                if time.time() - tt > 1:
+                    sys.stderr.write("[psx] slow obligation %r %s %.1fs\n" % (it[0], rr, time.time() - tt))
         if len(items) > 1:
             r, m = self.check_model(Or(*[it[3] for it in items]))
         else:
